@@ -43,7 +43,7 @@ def reviews : List Review := [
   ⟨"x/bep3", "Keeper.SetPreviousBlockTime", "blockTime.MarshalBinary", .codec⟩,
   ⟨"x/cdp", "BeginBlocker", "k.AccumulateInterest", .monitored "error only when the interest mint/send fails; cdp and liquidator are minter module accounts"⟩,
   ⟨"x/cdp", "BeginBlocker", "k.SynchronizeInterestForRiskyCDPs", .monitored "errors of MintDebtCoins / UpdateCdpAndCollateralRatioIndex on existing cdps"⟩,
-  ⟨"x/cdp", "BeginBlocker", "k.LiquidateCdps", .finding "F2" "per-deposit debt shares round(dep/total·debt) can sum to debt+1: the liquidator is one debt coin short and SeizeCollateral fails (cdp-auction-debt-split-rounding)"⟩,
+  ⟨"x/cdp", "BeginBlocker", "k.LiquidateCdps", .invariant "C02/C05" "the per-deposit debt shares add up to exactly the debt moved to the liquidator (C02_cdp_debt_split_exact, C05_debt_split_exact) — F2 fixed by bfd342e03; other errors of LiquidateCdps (auction start, index updates) rest on C04/C06 accounting"⟩,
   ⟨"x/cdp", "BeginBlocker", "k.RunSurplusAndDebtAuctions", .monitored "netting and auction start use balances the liquidator account holds (C04/C06 accounting)"⟩,
   ⟨"x/cdp", "Keeper.AccumulateInterest", "fmt.Sprintf(\"Debt parameters for %s not found\", types.DefaultStableDenom)", .config "cdp params validation requires the usdx debt param"⟩,
   ⟨"x/cdp", "Keeper.SynchronizeInterestForRiskyCDPs", "fmt.Sprintf(\"global interest factor not found for type %s\", cp.Type)", .config "genesis validation: an accumulation time and factor per collateral type"⟩,
@@ -141,14 +141,29 @@ def before (l : List String) (a b : String) : Bool :=
 
 /-! ### cdp `AuctionCollateral`: the per-deposit debt split (x/cdp/keeper/auctions.go)
 
-    `debtCoveredByDeposit = (Dec(dep) / Dec(total)) * Dec(debt)` rounded half-even to an integer. -/
+    `debtCoveredByDeposit = (Dec(dep) / Dec(total)) * Dec(debt)` rounded half-even to an integer; since the
+    fix "cdp liquidation debt shares could exceed the seized debt and panic the begin blocker" (bfd342e03)
+    no share may exceed the debt still unassigned and the last deposit takes the remainder. -/
 
 def debtShare (dep total debt : Int) : Int :=
   Dec.roundInt (Dec.mul (Dec.quo (Dec.ofInt dep) (Dec.ofInt total)) (Dec.ofInt debt))
 
 def sumInts (l : List Int) : Int := l.foldl (· + ·) 0
 
-def debtShares (deps : List Int) (debt : Int) : List Int :=
+/-- the loop of `AuctionCollateral`: `rem` is `remainingDebt` -/
+def splitCapped (total debt : Int) : List Int → Int → List Int
+  | [], _ => []
+  | [_], rem => [rem]
+  | d :: d2 :: rest, rem =>
+    let s := debtShare d total debt
+    let s' := if s > rem then rem else s
+    s' :: splitCapped total debt (d2 :: rest) (rem - s')
+
+/-- debt shares handed to the per-deposit collateral auctions (current code) -/
+def debtShares (deps : List Int) (debt : Int) : List Int := splitCapped (sumInts deps) debt deps debt
+
+/-- the split before the fix (kept to document finding F2): every share rounded independently -/
+def debtSharesBeforeFix (deps : List Int) (debt : Int) : List Int :=
   deps.map (fun d => debtShare d (sumInts deps) debt)
 
 /-! ### kavadist `mintInfrastructurePeriods` / `distributeInfrastructureCoins` (x/kavadist/keeper)
